@@ -167,6 +167,12 @@ class PGen:
             out_s = {(("renamed") if c == cols[-1] else c): ty for c, ty in sch.items()}
         elif how == "select":
             out_s = {cols[0]: sch[cols[0]]}
+        elif how == "rename_case":
+            out_s = {(c.upper() if c == cols[-1] else c): ty for c, ty in sch.items()}
+        elif how in ("select_upper", "toDF_upper"):
+            out_s = {c.upper(): ty for c, ty in sch.items()}
+        elif how == "withColumn_upper":
+            out_s = {(c.upper() if c == cols[-1] else c): ty for c, ty in sch.items()}
         elif how == "join_self":
             out_s = dict(sch)
         # limit without a total order returns an arbitrary row: such a sibling is built (and may be counted) but is never P's result
@@ -422,7 +428,7 @@ class PGen:
         return self.steps, last
 
 
-SIBLING_HOWS = ["distinct", "dropDuplicates", "orderBy", "limit", "groupBy", "drop", "withColumnRenamed", "union_self", "intersect_self", "where", "select", "alias", "join_self", "fillna", "dropna", "count"]
+SIBLING_HOWS = ["rename_case", "select_upper", "toDF_upper", "withColumn_upper", "distinct", "dropDuplicates", "orderBy", "limit", "groupBy", "drop", "withColumnRenamed", "union_self", "intersect_self", "where", "select", "alias", "join_self", "fillna", "dropna", "count"]
 HELD_SHAPES = ["leaf", "where", "alias", "union", "join", "select", "withColumn", "where_where", "distinct"]
 # (builder calls on the reader, the loading call, its keyword arguments)
 READ_CHAINS_H = [
@@ -980,6 +986,25 @@ def is_frame(x: t.Any) -> bool:
     return isinstance(x, BaseDataFrame)
 
 
+def frame_digest(s: t.Any, df: t.Any) -> str:
+    """everything a kept DataFrame carries that a later use reads: its own tree, last_op, pending hints, the display
+    names recorded for its columns, the column names it reports, the uuids it knows"""
+    try:
+        cols = list(df.columns)
+    except Exception as e:  # noqa
+        cols = [type(e).__name__]
+    return vlib.digest(
+        [
+            df.expression.sql(dialect=s.input_dialect),
+            int(df.last_op),
+            sorted(str(h) for h in (df.pending_hints or [])),
+            sorted((str(k), str(v)) for k, v in (df.display_name_mapping or {}).items()),
+            cols,
+            sorted(str(u) for u in (getattr(df, "known_uuids", None) or [])),
+        ]
+    )
+
+
 def pool_idents(s: t.Any, env: t.Dict[str, t.Any], pool: t.List[str]) -> t.List[t.List[str]]:
     """the state of every kept object, as it is now: the identifiers of a Column; a digest of a DataFrame's own
     expression and last_op; the settings on the reader `session.read` hands out"""
@@ -993,7 +1018,7 @@ def pool_idents(s: t.Any, env: t.Dict[str, t.Any], pool: t.List[str]) -> t.List[
             out.append([])
         elif is_frame(env[name]):
             df = env[name]
-            out.append([vlib.digest([df.expression.sql(dialect=s.input_dialect), int(df.last_op), sorted(str(h) for h in (df.pending_hints or []))])])
+            out.append([frame_digest(s, df)])
         else:
             out.append([s._normalize_string(i.alias_or_name) for i in env[name].expression.find_all(exp.Identifier)])
     return out
@@ -1037,6 +1062,7 @@ USE_METHODS = {"where": "where", "where_and": "where", "where_cmp": "where", "wi
 SIBLING_METHODS = {
     "distinct": "distinct", "dropDuplicates": "dropDuplicates", "orderBy": "orderBy", "limit": "limit", "groupBy": "groupBy",
     "drop": "drop", "withColumnRenamed": "withColumnRenamed", "union_self": "union", "where": "where", "select": "select",
+    "rename_case": "withColumnRenamed", "select_upper": "select", "toDF_upper": "toDF", "withColumn_upper": "withColumn",
     "alias": "alias", "join_self": "join", "fillna": "fillna", "dropna": "dropna", "intersect_self": "intersect", "count": "count",
 }
 
@@ -1141,6 +1167,14 @@ def exec_step(s: t.Any, env: t.Dict[str, t.Any], st: dict, data: dict) -> t.Any:
             out = df.drop(cols[-1])
         elif how == "withColumnRenamed":
             out = df.withColumnRenamed(cols[-1], "renamed")
+        elif how == "rename_case":  # only the letter case changes: the SQL alias stays, the display name is what differs
+            out = df.withColumnRenamed(cols[-1], cols[-1].upper())
+        elif how == "select_upper":
+            out = df.select(*[F.col(c_.upper()) for c_ in cols])
+        elif how == "toDF_upper":
+            out = df.toDF(*[c_.upper() for c_ in cols])
+        elif how == "withColumn_upper":
+            out = df.withColumn(cols[-1].upper(), F.col(cols[-1]))
         elif how == "union_self":
             out = df.union(df)
         elif how == "intersect_self":
@@ -1947,12 +1981,12 @@ def live_decisions() -> t.Dict[str, str]:
     w = a.where(F.col("k") > 0)
     edited = []
     for name, call in SIBLING_CALLS.items():
-        before = (w.expression.sql(), int(w.last_op))
+        before = frame_digest(s, w)
         try:
             call(w, F)
         except Exception:  # noqa
             pass
-        if (w.expression.sql(), int(w.last_op)) != before:
+        if frame_digest(s, w) != before:
             edited.append(name)
             w = a.where(F.col("k") > 0)
     out["sessInPlaceBuilderMethods"] = "[" + ", ".join(json.dumps(m) for m in sorted(edited)) + "]"
@@ -1985,14 +2019,15 @@ def live_decisions() -> t.Dict[str, str]:
 SIBLING_CALLS = {
     "distinct": lambda d, F: d.distinct(),
     "dropDuplicates": lambda d, F: d.dropDuplicates(),
-    "select": lambda d, F: d.select("k"),
-    "withColumn": lambda d, F: d.withColumn("j", F.col("k") + 1),
+    "select": lambda d, F: (d.select("k"), d.select(F.col("K"), F.col("S"))),
+    "withColumn": lambda d, F: (d.withColumn("j", F.col("k") + 1), d.withColumn("S", F.col("s"))),
     "where": lambda d, F: d.where(F.col("k") > 1),
     "orderBy": lambda d, F: d.orderBy("k"),
     "limit": lambda d, F: d.limit(1),
     "groupBy": lambda d, F: d.groupBy("k").count(),
     "drop": lambda d, F: d.drop("s"),
-    "withColumnRenamed": lambda d, F: d.withColumnRenamed("s", "t"),
+    "withColumnRenamed": lambda d, F: (d.withColumnRenamed("s", "t"), d.withColumnRenamed("s", "S")),
+    "toDF": lambda d, F: d.toDF("K", "S"),
     "union": lambda d, F: d.union(d),
     "intersect": lambda d, F: d.intersect(d),
     "join": lambda d, F: d.join(d, on="k"),
@@ -2078,6 +2113,8 @@ def show_step(st: dict) -> str:
     if op == "sibling":
         d = st["in"]
         call = {
+            "rename_case": "withColumnRenamed(<last column>, <LAST COLUMN>)", "select_upper": "select(*[col(<C>) for every column])", "toDF_upper": "toDF(*<COLUMNS IN UPPER CASE>)",
+            "withColumn_upper": "withColumn(<LAST COLUMN>, col(<last column>))",
             "distinct": "distinct()", "dropDuplicates": "dropDuplicates()", "orderBy": "orderBy(col(<first column>).desc())", "limit": "limit(1)",
             "groupBy": "groupBy(<first column>).agg(count(lit(1)).alias('n'))", "drop": "drop(<last column>)", "withColumnRenamed": "withColumnRenamed(<last column>, 'renamed')",
             "union_self": f"union({d})", "intersect_self": f"intersect({d})", "where": "where(col(<first column>) > 1)", "select": "select(col(<first column>))",
@@ -2148,7 +2185,7 @@ def cases_for(ctx: Ctx) -> t.List[dict]:
     combos = [(sh, hw) for sh in HELD_SHAPES for hw in SIBLING_HOWS]
     if not ctx.thorough:
         combos = [(ctx.rng.choice(HELD_SHAPES), hw) for hw in SIBLING_HOWS for _ in range(2)] + [(sh, ctx.rng.choice(SIBLING_HOWS)) for sh in HELD_SHAPES for _ in range(2)]
-        combos += [(sh, hw) for sh in ("where", "alias", "union", "join") for hw in ("distinct", "dropDuplicates", "limit", "orderBy")]
+        combos += [(sh, hw) for sh in ("where", "alias", "union", "join") for hw in ("distinct", "dropDuplicates", "limit", "orderBy", "rename_case", "toDF_upper")]
     for sh, hw in combos:
         c = family_held_frames(ctx.rng, sh, hw, ctx.rng.choice(["collect", "collect", "count", "derive", "own_sibling"]))
         if c:
